@@ -144,7 +144,11 @@ class FakeFunction:
 
     def call(self, args):
         args = [ca.SX(a) for a in args]
+        # like the real casadi.Function: a scalar argument is broadcast over a non-scalar input
+        args = [ca.repmat(a, *i.shape) if a.shape == (1, 1) and i.shape != (1, 1) else a for a, i in zip(args, self._ins)]
         args = [ca.reshape(a, i.shape) if a.shape != i.shape else a for a, i in zip(args, self._ins)]
+        # like the real casadi.Function: an argument is projected onto the declared input sparsity
+        args = [ca.project(a, i.sparsity()) if a.sparsity() != i.sparsity() else a for a, i in zip(args, self._ins)]
         olds, news = [], []
         log = ACTIVE_LOG
         for k in self._calls:
@@ -198,6 +202,8 @@ class Spec:
     domain: Optional[Callable] = None   # rng -> list of flat input vectors (numpy) for the tie
     series: Optional[Tuple[str, str]] = None   # (table, key): this spec IS a SERIES entry
     cuts: Sequence[str] = ()   # names of outputs that are cut points for the other outputs ("peeling")
+    only: Sequence[str] = ()   # when non-empty: scalar defs only for these outputs (the runner then uses `all`)
+    selects: bool = False      # emit the if_else decomposition (cond / then / else defs) of outputs that are selections
 
 
 def dyadic(x: float) -> Tuple[int, int]:
@@ -300,6 +306,10 @@ def extract(spec: Spec) -> dict:
         ir["series"] = list(spec.series)
     if spec.cuts:
         ir["cuts"] = list(spec.cuts)
+    if spec.only:
+        ir["only"] = list(spec.only)
+    if spec.selects:
+        ir["selects"] = True
     # input nz -> (row, col): inputs are dense symbols, column-major
     return ir
 
@@ -444,6 +454,40 @@ def cut_args(ir) -> str:
     return " ".join(xs)
 
 
+def select_parts(ir, root, cutmap=()):
+    """(c, a, b) when node `root` is CasADi's if_else(c, a, b) = ifz(c, a) + ifz(not c, b); else None"""
+    if root is None or root in cutmap:
+        return None
+    N = ir["nodes"]
+    nd = N[root]
+    if nd["op"] == "ifz" and nd["args"][0] not in cutmap:
+        return nd["args"][0], nd["args"][1], None    # if_else(c, a, structural zero)
+    if nd["op"] != "add":
+        return None
+    l, r = (N[k] for k in nd["args"])
+    if nd["args"][0] in cutmap or nd["args"][1] in cutmap or l["op"] != "ifz" or r["op"] != "ifz":
+        return None
+    c, a = l["args"]; nc, b = r["args"]
+    if nc in cutmap or N[nc]["op"] != "not" or N[nc]["args"][0] != c:
+        return None
+    return c, a, b
+
+
+def _emit_chain(L, ir, name, binders, root, cutmap=None):
+    L.append("@[cas_defs] def %s {α : Type} [CasNum α] %s : α :=" % (name, binders))
+    if root is None:
+        L.append("  CasNum.ofInt 0")
+        return
+    cutmap = cutmap or {}
+    for n in _topo(ir["nodes"], [root], stop=cutmap):
+        L.append("  let t%d : α := %s" % (n, cutmap[n] if n in cutmap else node_rhs(ir, n)))
+    L.append("  t%d" % root)
+
+
+def scalar_outputs(ir):
+    return [o for o in ir["outputs"] if not ir.get("only") or o["name"] in ir["only"]]
+
+
 def emit_function(ir) -> str:
     """Lean text for one function (core Lean only)."""
     L = []
@@ -453,38 +497,33 @@ def emit_function(ir) -> str:
         L.append("/- %s -/" % ir["doc"])
     b = binder(ir)
     if ir["scalar"]:
-        for out in ir["outputs"]:
+        for out in scalar_outputs(ir):
             r, c = out["shape"]
             for j in range(c):
                 for i in range(r):
                     root = out["elems"][i][j]
-                    L.append("@[cas_defs] def %s {α : Type} [CasNum α] %s : α :=" % (elem_name(out, i, j), b))
-                    if root is None:
-                        L.append("  CasNum.ofInt 0")
-                        continue
-                    for n in _topo(ir["nodes"], [root]):
-                        L.append("  let t%d : α := %s" % (n, node_rhs(ir, n)))
-                    L.append("  t%d" % root)
+                    _emit_chain(L, ir, elem_name(out, i, j), b, root)
+                    sp = select_parts(ir, root) if ir.get("selects") else None
+                    if sp:
+                        for suffix, nd in zip(("__c", "__a", "__b"), sp):
+                            if nd is not None:
+                                _emit_chain(L, ir, elem_name(out, i, j) + suffix, b, nd)
     # peeled versions: outputs named in `cuts` become extra scalar arguments of the others
     if ir["scalar"] and ir.get("cuts"):
         cutmap, cb = cut_binders(ir)
-        for out in ir["outputs"]:
+        for out in scalar_outputs(ir):
             if out["name"] in ir["cuts"]:
                 continue
             r, c = out["shape"]
             for j in range(c):
                 for i in range(r):
                     root = out["elems"][i][j]
-                    L.append("@[cas_defs] def %s_cut {α : Type} [CasNum α] %s %s : α :=" % (elem_name(out, i, j), b, cb))
-                    if root is None:
-                        L.append("  CasNum.ofInt 0")
-                        continue
-                    for n in _topo(ir["nodes"], [root], stop=cutmap):
-                        if n in cutmap:
-                            L.append("  let t%d : α := %s" % (n, cutmap[n]))
-                        else:
-                            L.append("  let t%d : α := %s" % (n, node_rhs(ir, n)))
-                    L.append("  t%d" % root)
+                    _emit_chain(L, ir, elem_name(out, i, j) + "_cut", b + " " + cb, root, cutmap)
+                    sp = select_parts(ir, root, cutmap) if ir.get("selects") else None
+                    if sp:
+                        for suffix, nd in zip(("_cut__c", "_cut__a", "_cut__b"), sp):
+                            if nd is not None:
+                                _emit_chain(L, ir, elem_name(out, i, j) + suffix, b + " " + cb, nd, cutmap)
     # `all`: every output element (column-major per output), one shared let-chain
     roots = []
     for out in ir["outputs"]:
@@ -532,7 +571,7 @@ def emit_runner(ir) -> str:
             args.append("(fun i j => x[%d + i.val + %d * j.val]!)" % (off, r))
         off += r * c
     a = " ".join(args)
-    if ir["scalar"]:
+    if ir["scalar"] and not ir.get("only"):
         els = []
         for out in ir["outputs"]:
             r, c = out["shape"]
@@ -554,7 +593,7 @@ def emit_wrappers(ir) -> str:
     L = ["namespace %s" % ns]
     b = binder(ir)
     a = argnames(ir)
-    for out in ir["outputs"]:
+    for out in scalar_outputs(ir):
         r, c = out["shape"]
         nm = out["name"]
         if (r, c) == (1, 1):
@@ -566,17 +605,45 @@ def emit_wrappers(ir) -> str:
             rows = "; ".join(", ".join("%s %s" % (elem_name(out, i, j), a) for j in range(c)) for i in range(r))
             L.append("@[cas_defs] def %s_mat {α : Type} [CasNum α] %s : Matrix (Fin %d) (Fin %d) α :=\n  !![%s]" % (
                 nm, b, r, c, rows))
+    if ir.get("selects"):
+        for out in scalar_outputs(ir):
+            r, c = out["shape"]
+            for j in range(c):
+                for i in range(r):
+                    en = elem_name(out, i, j)
+                    sp = select_parts(ir, out["elems"][i][j])
+                    if sp and sp[2] is None:
+                        L.append("/-- `%s` is a selection against a structural zero: ifz(c, a) (definitional) -/" % en)
+                        L.append("theorem %s_sel {α : Type} [CasNum α] %s :\n    %s %s = CasNum.ifz (%s__c %s) (%s__a %s) := rfl" % (
+                            en, b, en, a, en, a, en, a))
+                    elif sp:
+                        L.append("/-- `%s` is a selection: ifz(c, a) + ifz(not c, b) (definitional) -/" % en)
+                        L.append("theorem %s_sel {α : Type} [CasNum α] %s :\n    %s %s = CasNum.add (CasNum.ifz (%s__c %s) (%s__a %s)) (CasNum.ifz (CasNum.not (%s__c %s)) (%s__b %s)) := rfl" % (
+                            en, b, en, a, en, a, en, a, en, a, en, a))
     if ir.get("cuts"):
         cutmap, _ = cut_binders(ir)
         negs = any(v.startswith("(CasNum.neg") for v in cutmap.values())
         breal = " ".join("(%s : %s)" % (i["name"], arg_type(i["shape"]).replace("α", "ℝ")) for i in ir["inputs"])
-        for out in ir["outputs"]:
+        for out in scalar_outputs(ir):
             if out["name"] in ir["cuts"]:
                 continue
             r, c = out["shape"]
             for j in range(c):
                 for i in range(r):
                     en = elem_name(out, i, j)
+                    sp = select_parts(ir, out["elems"][i][j], cutmap) if ir.get("selects") else None
+                    if sp and sp[2] is None:
+                        _, cb = cut_binders(ir)
+                        ca_ = " ".join(cb.strip("()").split(":")[0].split())
+                        L.append("/-- `%s_cut` is a selection against a structural zero: ifz(c, a) (definitional) -/" % en)
+                        L.append("theorem %s_cut_sel {α : Type} [CasNum α] %s %s :\n    %s_cut %s %s = CasNum.ifz (%s_cut__c %s %s) (%s_cut__a %s %s) := rfl" % (
+                            en, b, cb, en, a, ca_, en, a, ca_, en, a, ca_))
+                    elif sp:
+                        _, cb = cut_binders(ir)
+                        ca_ = " ".join(cb.strip("()").split(":")[0].split())
+                        L.append("/-- `%s_cut` is a selection: ifz(c, a) + ifz(not c, b) (definitional) -/" % en)
+                        L.append("theorem %s_cut_sel {α : Type} [CasNum α] %s %s :\n    %s_cut %s %s = CasNum.add (CasNum.ifz (%s_cut__c %s %s) (%s_cut__a %s %s)) (CasNum.ifz (CasNum.not (%s_cut__c %s %s)) (%s_cut__b %s %s)) := rfl" % (
+                            en, b, cb, en, a, ca_, en, a, ca_, en, a, ca_, en, a, ca_, en, a, ca_))
                     if not negs:
                         L.append("/-- peeling: `%s` is its cut version applied to the cut outputs (definitional) -/" % en)
                         L.append("theorem %s_cut_eq {α : Type} [CasNum α] %s :\n    %s %s = %s_cut %s %s := rfl" % (
